@@ -2928,6 +2928,174 @@ def gen_gtf_format():
             if k.endswith("_fmt"):
                 _fmt_directives(v)
             out.append("def %s : String := %s" % (k, _lean_str_esc(v)))
+# ----------------------------------------------------------------------------------------------
+# C15 / C05 / C08 (read-level printers): the event-name table and the structure of match_subtype_to_str /
+# match_subtype_to_str_with_additional_info (src/isoform_assignment.py), the header lines of read_assignments.tsv and
+# corrected_reads.bed (src/assignment_io.py)
+
+def _is_name(n, ident):
+    return isinstance(n, ast.Name) and n.id == ident
+
+
+def _strand_test(test):
+    """`strand == '<c>'` -> c"""
+    if isinstance(test, ast.Compare) and len(test.ops) == 1 and isinstance(test.ops[0], ast.Eq) \
+            and _is_name(test.left, "strand") and isinstance(test.comparators[0], ast.Constant) \
+            and isinstance(test.comparators[0].value, str):
+        return test.comparators[0].value
+    raise TranslationError("match_subtype_to_str: expected `strand == '<c>'`")
+
+
+def _name_pick(stmts):
+    """`return match_subtype_printable_names[event_subtype][k]` -> k"""
+    if len(stmts) == 1 and isinstance(stmts[0], ast.Return):
+        v = stmts[0].value
+        if isinstance(v, ast.Subscript) and isinstance(v.slice, ast.Constant) and isinstance(v.slice.value, int) \
+                and isinstance(v.value, ast.Subscript) and _is_name(v.value.value, "match_subtype_printable_names") \
+                and _is_name(v.value.slice, "event_subtype"):
+            return v.slice.value
+    raise TranslationError("match_subtype_to_str: expected `return match_subtype_printable_names[event_subtype][k]`")
+
+
+def _in_subtype_set(test):
+    """`event_subtype in {MatchEventSubtype.a, ...}` -> [a, ...]"""
+    if isinstance(test, ast.Compare) and len(test.ops) == 1 and isinstance(test.ops[0], ast.In) \
+            and _is_name(test.left, "event_subtype"):
+        return attr_members(test.comparators[0], "MatchEventSubtype")
+    raise TranslationError("match_subtype_to_str_with_additional_info: expected `event_subtype in {...}`")
+
+
+def gen_printer_tables():
+    tree = parse("src/isoform_assignment.py")
+    out = ["-- GENERATED by harness/translate.py from /repo/src/isoform_assignment.py, /repo/src/assignment_io.py -- do not edit",
+           "import IsoVerif.Gen.Enums", "namespace IsoVerif.Gen", ""]
+    info = {}
+    members = [m for m, _ in enum_members(find_def(tree, "MatchEventSubtype"))]
+    # 1. match_subtype_printable_names
+    tbl = find_assign(tree, "match_subtype_printable_names")
+    if not isinstance(tbl, ast.Dict):
+        raise TranslationError("match_subtype_printable_names is not a dict display")
+    rows = []
+    for k, v in zip(tbl.keys, tbl.values):
+        if not (isinstance(k, ast.Attribute) and _is_name(k.value, "MatchEventSubtype") and k.attr in members):
+            raise TranslationError("match_subtype_printable_names: unexpected key")
+        if not (isinstance(v, ast.Tuple) and len(v.elts) == 3 and
+                all(isinstance(e, ast.Constant) and isinstance(e.value, str) for e in v.elts)):
+            raise TranslationError("match_subtype_printable_names[%s]: expected a tuple of three string literals" % k.attr)
+        rows.append((k.attr, [e.value for e in v.elts]))
+    if len({r[0] for r in rows}) != len(rows):
+        raise TranslationError("match_subtype_printable_names: repeated key")
+    info["printable_names"] = rows
+    out.append("/-- `match_subtype_printable_names`: (name on '+', name on '-', name otherwise) -/")
+    out.append("def printable_names : List (MatchEventSubtype × (String × String × String)) := [")
+    out.append(",\n".join("  (MatchEventSubtype.%s, (%s, %s, %s))" % ((lean_ident(m),) + tuple(_lean_str(x) for x in ns))
+                          for m, ns in rows))
+    out.append("]\n")
+    # 2. match_subtype_to_str: which column for which strand
+    fn = find_def(tree, "match_subtype_to_str")
+    if [a.arg for a in fn.args.args] != ["event", "strand"]:
+        raise TranslationError("match_subtype_to_str: unexpected signature")
+    body = [s for s in fn.body if not (isinstance(s, ast.Expr) and isinstance(s.value, ast.Constant))]
+    ok = len(body) == 3 and isinstance(body[0], ast.Assign) and isinstance(body[1], ast.If) and isinstance(body[2], ast.Return)
+    if ok:
+        a, cond, ret = body
+        ok = _is_name(a.targets[0], "event_subtype") and isinstance(a.value, ast.Attribute) and a.value.attr == "event_type" \
+            and _is_name(a.value.value, "event") \
+            and isinstance(ret.value, ast.Attribute) and ret.value.attr == "name" and _is_name(ret.value.value, "event_subtype") \
+            and not cond.orelse
+        t = cond.test
+        ok = ok and isinstance(t, ast.Compare) and len(t.ops) == 1 and isinstance(t.ops[0], ast.In) and _is_name(t.left, "event_subtype") \
+            and isinstance(t.comparators[0], ast.Call) and isinstance(t.comparators[0].func, ast.Attribute) \
+            and t.comparators[0].func.attr == "keys" and _is_name(t.comparators[0].func.value, "match_subtype_printable_names")
+    if not ok:
+        raise TranslationError("match_subtype_to_str: unexpected shape")
+    inner = [s for s in cond.body]
+    # an optional `if strand is None: logger.warning(...)` (no effect on the value), then the if / elif / else chain
+    if len(inner) == 2 and isinstance(inner[0], ast.If) and not inner[0].orelse and \
+            all(isinstance(s, ast.Expr) and isinstance(s.value, ast.Call) for s in inner[0].body):
+        inner = inner[1:]
+    if len(inner) != 1 or not isinstance(inner[0], ast.If):
+        raise TranslationError("match_subtype_to_str: expected one if / elif / else chain over the strand")
+    picks, node = [], inner[0]
+    while True:
+        picks.append((_strand_test(node.test), _name_pick(node.body)))
+        if len(node.orelse) == 1 and isinstance(node.orelse[0], ast.If):
+            node = node.orelse[0]
+            continue
+        default = _name_pick(node.orelse)
+        break
+    if any(not 0 <= k <= 2 for _, k in picks) or not 0 <= default <= 2:
+        raise TranslationError("match_subtype_to_str: column index out of range")
+    info["strand_picks"] = picks
+    info["strand_default"] = default
+    proj = ["n.1", "n.2.1", "n.2.2"]
+    out.append("/-- the if / elif / else chain of `match_subtype_to_str` over the strand -/")
+    out.append("def printable_pick (strand : String) (n : String × String × String) : String :=")
+    chain = "".join("if strand = %s then %s else " % (_lean_str(c), proj[k]) for c, k in picks)
+    out.append("  " + chain + proj[default] + "\n")
+    # 3. match_subtype_to_str_with_additional_info: the two event sets and the shape of the three branches
+    fn = find_def(tree, "match_subtype_to_str_with_additional_info")
+    if [a.arg for a in fn.args.args] != ["event", "strand", "read_introns", "isoform_introns"]:
+        raise TranslationError("match_subtype_to_str_with_additional_info: unexpected signature")
+    ifs = [s for s in fn.body if isinstance(s, ast.If)]
+    if len(ifs) != 1 or len(ifs[0].orelse) != 1 or not isinstance(ifs[0].orelse[0], ast.If) or not ifs[0].orelse[0].orelse:
+        raise TranslationError("match_subtype_to_str_with_additional_info: expected if / elif / else")
+    set1 = _in_subtype_set(ifs[0].test)
+    set2 = _in_subtype_set(ifs[0].orelse[0].test)
+    src = ast.unparse(fn)
+    for needle in ("event.isoform_region != SupplementaryMatchConstants.undefined_region",
+                   "isoform_introns[event.isoform_region[0]:event.isoform_region[1] + 1]",
+                   "':' + str(event.event_info)",
+                   "event.read_region != SupplementaryMatchConstants.undefined_region and event.read_region[0] >= 0 and (event.read_region[1] >= 0)",
+                   "read_introns[event.read_region[0]:event.read_region[1] + 1]",
+                   "':' + regions_to_str(introns)",
+                   "return match_subtype_to_str(event, strand) + additional_info"):
+        if needle not in src:
+            raise TranslationError("match_subtype_to_str_with_additional_info: expected `%s`" % needle)
+    for nm in set1 + set2:
+        if nm not in members:
+            raise TranslationError("unknown MatchEventSubtype.%s" % nm)
+    info["isoform_intron_events"], info["event_info_events"] = set1, set2
+    out.append("/-- events printed with the ISOFORM introns `isoform_region[0] .. isoform_region[1]` -/")
+    out.append("def printer_isoform_intron_events : List MatchEventSubtype := %s" % lean_list("MatchEventSubtype", set1))
+    out.append("/-- events printed with `event_info` -/")
+    out.append("def printer_event_info_events : List MatchEventSubtype := %s\n" % lean_list("MatchEventSubtype", set2))
+    src = ast.unparse(find_def(tree, "regions_to_str"))
+    if "','.join([str(x[0]) + '-' + str(x[1]) for x in regions])" not in src:
+        raise TranslationError("regions_to_str: unexpected body")
+    # 4. headers of the two read-level files
+    aio = parse("src/assignment_io.py")
+    init = find_def(aio, "__init__", "BasicTSVAssignmentPrinter")
+    hdr = None
+    for n in ast.walk(init):
+        if isinstance(n, ast.Assign) and isinstance(n.targets[0], ast.Attribute) and n.targets[0].attr == "header" \
+                and isinstance(n.value, ast.Constant) and isinstance(n.value.value, str):
+            hdr = n.value.value
+    if hdr is None:
+        raise TranslationError("BasicTSVAssignmentPrinter.__init__: self.header is not a string literal")
+    binit = find_def(aio, "__init__", "BEDPrinter")
+    bhdr = [n.args[0].value for n in ast.walk(binit) if isinstance(n, ast.Call) and isinstance(n.func, ast.Attribute)
+            and n.func.attr == "write" and len(n.args) == 1 and isinstance(n.args[0], ast.Constant)
+            and isinstance(n.args[0].value, str)]
+    if len(bhdr) != 1:
+        raise TranslationError("BEDPrinter.__init__: expected one write of a string literal")
+    for h in (hdr, bhdr[0]):
+        if not h.endswith("\n") or h.count("\n") != 1:
+            raise TranslationError("header is not exactly one line")
+    info["tsv_header"], info["bed_header"] = hdr, bhdr[0]
+
+    def lstr(x):
+        return '"' + x.replace("\\", "\\\\").replace('"', '\\"').replace("\t", "\\t").replace("\n", "\\n") + '"'
+    out.append("def printer_tsv_header : String := %s" % lstr(hdr))
+    out.append("def printer_bed_header : String := %s" % lstr(bhdr[0]))
+    # the BED printer writes the corrected exons, the TSV printer exists iff a gene database is given
+    agg = ast.unparse(find_def(parse("src/dataset_processor.py"), "__init__", "ReadAssignmentAggregator"))
+    for needle in ("BEDPrinter(sample.out_corrected_bed, self.args, print_corrected=True, gzipped=gzipped)",
+                   "printer_list = [self.corrected_bed_printer]",
+                   "self.global_printer = ReadAssignmentCompositePrinter(printer_list)"):
+        if needle not in agg:
+            raise TranslationError("ReadAssignmentAggregator.__init__: expected `%s`" % needle)
+    out.append("def printer_bed_print_corrected : Bool := true")
     out.append("\nend IsoVerif.Gen\n")
     return "\n".join(out), info
 
@@ -2947,6 +3115,7 @@ GENERATORS = [("Prims", gen_prims), ("Enums", gen_enums), ("EventClasses", gen_e
               ("ModelConstruction", gen_model_construction),   # C04
               ("ComparatorTables", gen_comparator_tables),     # C01 (compare_junctions)
               ("GtfFormat", gen_gtf_format),          # C03 (text of the GTF lines)
+              ("PrinterTables", gen_printer_tables),           # C15 / C05 / C08 (read-level printers)
               ]
 
 
